@@ -101,8 +101,8 @@ def build(variant="hooks"):
             if d.startswith(variant + "-"):
                 full = os.path.join(CACHE, "build", d)
                 st = os.path.join(full, ".ok")
-                # keep builds touched in the last 10 minutes (parallel checks)
-                if os.path.exists(st) and time.time() - os.path.getmtime(st) < 600:
+                # keep builds touched in the last 90 minutes (parallel checks, long runs)
+                if os.path.exists(st) and time.time() - os.path.getmtime(st) < 5400:
                     continue
                 shutil.rmtree(full, ignore_errors=True)
         t0 = time.time()
